@@ -49,7 +49,7 @@ JNum(p, b, m) == [t |-> "num", p |-> p, b |-> b, q |-> (m = "numstr")]
 JBool(x) == [t |-> "bool", v |-> x]
 JObj(kv) == [t |-> "obj", kv |-> kv]
 JArr(items) == [t |-> "arr", items |-> items]
-JName(s) == [t |-> "name", s |-> s]            \* a schema identifier used as a JSON string
+JName(s, tag) == [t |-> "name", s |-> s, tag |-> tag]   \* a constructor name used as a JSON string ("name#tag" with legacy type names)
 
 (* is the float zero for the purpose of "empty"?  +0.0 only: -0.0 differs *)
 IsEmptyPrim(p, v) == CASE p = "string" -> v = <<>>
@@ -116,7 +116,7 @@ WJ(tn, env, v, m) ==
     [] t.k = "union" ->
          LET vt == TY(t.variants[v.i])
              uenv == ArgsVal(t.elemNa, env, t, <<>>)
-             nm == JName(vt.tlname)
+             nm == JName(vt.tlname, vt.tag)
          IN IF t.maybe THEN
               (IF v.i = 1 THEN JObj(<<>>)
                ELSE LET inner == vt.fields[1]
